@@ -28,6 +28,10 @@ CHECKS = {
    technique="TLA+ dependency-set model Blocks (phases stats/roots/apply/graft/emit) checked by TLC incl. two deliberately leaky variants; TLC-enumerated cases replayed on the real Distributed Shampoo and Tearfree Shampoo: blocked tensor vs its blocks as separate leaves, common graft factor, companion independence",
    text="TLC checks on the information-flow model that the direction of a block's update depends only on that block's gradient history and that nothing of another parameter reaches a parameter's update when cut-off and padding of the batched root routine are per block, and that both invariants are violated by the 'cut-off relative to the batch maximum' variant (Tearfree before its repair) and by leaky padding. TLC enumerates the replay cases (2, 3 (ragged where supported) and 2x2 blocks x 7 per-block gradient scale patterns over {1e-6,1,1e6} (1e-4/1e4 quick) x 4 companion kinds); for each, on both optimizers, the blocked tensor's un-grafted update equals block by block the update of the blocks optimised as separate leaves (1e-4 of the block's own max-abs), the grafted update is the un-grafted one times a single scalar, and adding a companion (vector, larger matrix, 1e6-scale leaf) leaves the target's update unchanged.",
    note="Trusted: TLC; seeded normal gradients times the scale class; blocked and separate-leaf runs are different XLA programs (1e-4 tolerance, measured 1e-7). Bounds: block size 3, 4 steps, <= 4 blocks."),
+ "C15": dict(level="model_checking", ref="4/C15",
+   technique="TLA+ refinement: implementation-shaped chain machine TFTerms refines documented closed forms TFDoc (TLC, exact dyadic coefficients); TLC-exported behaviours interpreted in float64 and compared with the real Tearfree update; paired runs at twice the learning rate",
+   text="TLC proves for every configuration of the bounded product (4 graft types x start step x skip (ignored for NONE) x ema x Nesterov x momentum decay x weight decay before/after x constant/scheduled learning rate with its own counter x statistics/root frequencies x decays) and every step that the chain as implemented (second order with fresh roots -> graft or graft-norm rescale -> [ema scale] -> trace -> weight decay -> learning rate) equals the documented closed forms. Seeded TLC simulations export behaviours; a float64 reference written from the documentation (merge, ragged blocks without padding, per-block inverse (2 x rank)-th roots with the per-block 1e-6 cut-off, frequent-directions root, RMSProp/AdaFactor graft) interprets the update terms on 10 geometries (blocked, 2x2 blocks with 1e-4/1e3 scale disparity between blocks, padded ragged block, merged rank 3, masked vector, Sketchy rank 2 relative/absolute epsilon) and is compared with the real update: Shampoo in float64 under x64 at 1e-9 (measured 2e-15), Sketchy in float32 at 1e-4 (measured 5e-7); each run is paired with one at 2 x lr and the updates must be in ratio exactly 2 (<= 2 ulp; measured 0).",
+   note="Trusted: TLC; harness/reftf.py; optax's AdaFactor as the graft oracle for that type. Sketchy is compared only where the per-axis Gram rank exceeds the sketch rank (at rank exactly k the code's exact-zero tests are decided by float32 noise). ekfac_svd / linear_approx_tail / add_ggt / memory_alloc variants are not covered."),
 }
 
 NA_REASON = "check not built yet in this round (work in progress; see DESIGN.md section 9)"
